@@ -35,6 +35,12 @@ NEEDS = {
  "C18-m1": ("C18", "floor/ceil neighbour fix-up replaced by L=floor, u=min(L+1, top): all mass of source atoms clipped exactly to v_max is lost (only rewards at/above v_max)", ""),
  "C18-m2": ("C18", "one gamma for all _dqn_loss calls: in combined mode with n-step data the 1-step half is discounted with gamma**n (needs combined_reward, n_step>1, gamma<1, done=0 rows)", ""),
  "C19-m1": ("C19", "gamma folded into the gradient features: sigma_inv becomes inv(lambda I + gamma^2 sum g g^T); identical at the default gamma=1", ""),
+ "C03-m1": ("C03", "calc_max_kernel_sizes tracks only the image width instead of min(height,width): on short, wide images change_kernel/add_layer draw kernels larger than the feature-map height and the rebuild raises", "missed by the first C03 version (square images only); caught after adding a 6x24 CNN configuration"),
+ "C03-m2": ("C03", "Conv3d kernel depth taken from layer 0 instead of the mutated layer: needs Conv3d, first kernel depth>1 and >=2 conv layers; change_kernel then raises", ""),
+ "C16-m1": ("C16", "mask rows without any legal action fall back to unmasked logits - also for MultiBinary, where an all-zero mask row is legal: masked bits get switched on", ""),
+ "C16-m2": ("C16", "Categorical built from clamped softmax probabilities: log-probabilities more than ~16 nats below the maximum (and of masked actions) are reported as -15.94", ""),
+ "C17-m1": ("C17", "train_on_policy records only terminations as done flags: time-limit truncations are no episode boundary for GAE any more", ""),
+ "C17-m2": ("C17", "IPPO next_done vectorised on the wrong axis: final-step mask lands on the wrong (agent, env) columns; needs >=2 shared agents, >=2 envs and an episode ending at the last step in only some envs", ""),
  "C19-m2": ("C19", "per-arm zero_grad() moved after reading the gradient: the loss gradients a preceding learn() leaves in .grad leak into arm 0's feature (learn immediately followed by get_action choosing arm 0)", "first reported as HARNESS-ERROR (the harness' in-place undo did not restore .grad, so re-execution diverged); the undo now restores .grad exactly and a diverging history is re-judged by the oracle before any harness error - now a VIOLATION"),
  "C04-m2": ("C04", "EvolvableMultiInput.get_inner_init_dict reads the constructor's configs instead of the live nested configs: after a nested extractor mutation a following add_latent_node ON THE SAME OBJECT (no clone in between) rebuilds the nested networks with their initial architecture", "missed by the first C03/C04 versions (every edge was clone-then-mutate); caught by both after adding in-place mutation pairs - which also exposed a genuine stale-bound-method defect on the unchanged tree (recorded as open finding)"),
 }
